@@ -22,7 +22,8 @@ Definition merge (d : doc) (u : upd) : doc :=
   (match fst u with Some x => x | None => fst d end,
    match snd u with Some x => x | None => snd d end).
 
-Inductive op := OAdd (d : doc) | OUpdate (i : id) (u : upd) | ORemove (i : id) | OFlush.
+(* OGet i hit: Collection::get; [hit] says whether the read cache served it (no backend GET) *)
+Inductive op := OAdd (d : doc) | OUpdate (i : id) (u : upd) | ORemove (i : id) | OFlush | OGet (i : id) (hit : bool).
 
 Inductive ret :=
 | RId (i : id)          (* add -> Ok(id) *)
@@ -57,6 +58,7 @@ Inductive tpc :=
 | TRemIntent (d : doc)                    (* intent written; next: storage.delete *)
 | TRemDeleted (d : doc)                   (* object deleted; next: bitmap removal *)
 | TFlushSnap (ids : list id)              (* exclusive; snapshot taken; next: persist *)
+| TGetChecked                             (* get: bitmap said present; next: the read *)
 | TFinishing (r : ret)                    (* last storage call done; next: drop guards, return *)
 | TDone (r : ret).
 
@@ -80,7 +82,9 @@ Record cstate := mkC {
 
 Definition running (p : tpc) : bool := match p with TIdle | TDone _ => false | _ => true end.
 Definition is_flush (o : op) : bool := match o with OFlush => true | _ => false end.
-Definition holds_shared_t (t : thread) : bool := negb (is_flush (fst t)) && running (snd t).
+Definition is_read (o : op) : bool := match o with OGet _ _ => true | _ => false end.
+(* reads take no gate lease *)
+Definition holds_shared_t (t : thread) : bool := negb (is_flush (fst t)) && negb (is_read (fst t)) && running (snd t).
 Definition holds_excl_t (t : thread) : bool := is_flush (fst t) && running (snd t).
 
 Definition target (o : op) : option id :=
@@ -113,11 +117,18 @@ Definition tstep (s : cstate) (t : nat) : option (cstate * option label) :=
     | TDone _ => None
     | TFinishing r => Some (set_pc s t o (TDone r), None)
     | TIdle =>
+        match o with
+        | OGet i _ =>
+            (* no gate: the bitmap test is the first thing a get does *)
+            if mem i (c_bitmap s) then Some (set_pc s t o TGetChecked, None)
+            else Some (set_pc (lin_add s t o RNotFound) t o (TDone RNotFound), None)
+        | _ =>
         if is_flush o
         then if forallb (fun th => negb (holds_shared_t th || holds_excl_t th)) (c_threads s)
              then Some (set_pc s t o TGate, None) else None
         else if forallb (fun th => negb (holds_excl_t th)) (c_threads s)
              then Some (set_pc s t o TGate, None) else None
+        end
     | _ =>
       match o with
       | OAdd d =>
@@ -177,6 +188,15 @@ Definition tstep (s : cstate) (t : nat) : option (cstate * option label) :=
                       (c_lin s) (c_persist s), None)
         | _ => None
         end
+      | OGet i hit =>
+        match p with
+        | TGetChecked =>
+            (* the read: storage.get through the cache (hit: no backend call) or the backend *)
+            let r := match get (c_store s) i with Some d => RDoc d | None => RNotFound end in
+            Some (set_pc (lin_add s t o r) t o (TFinishing r),
+                  if hit then None else Some (LGet i (get (c_store s) i)))
+        | _ => None
+        end
       | OFlush =>
         match p with
         | TGate => Some (set_pc (lin_add s t o RFlushed) t o (TFlushSnap (c_bitmap s)), None)
@@ -221,6 +241,8 @@ Inductive seq_step : amap * list id -> op -> ret -> amap * list id -> Prop :=
 | sq_remove_missing f used i f' : f i = None -> (forall j, f' j = f j) ->
     seq_step (f, used) (ORemove i) RNone (f', used)
 | sq_flush f used f' : (forall j, f' j = f j) -> seq_step (f, used) OFlush RFlushed (f', used)
+| sq_get f used i h d f' : f i = Some d -> (forall j, f' j = f j) -> seq_step (f, used) (OGet i h) (RDoc d) (f', used)
+| sq_get_missing f used i h f' : f i = None -> (forall j, f' j = f j) -> seq_step (f, used) (OGet i h) RNotFound (f', used)
 | sq_err f used o f' : (forall j, f' j = f j) -> seq_step (f, used) o RErr (f', used).
 
 Inductive seq_exec : amap * list id -> list (nat * op * ret) -> amap * list id -> Prop :=
@@ -254,6 +276,11 @@ Definition seq_fn (st : list (id * doc) * list id) (o : op) (r : ret) : option (
                             end
     | ORemove i, RNone => match get m i with None => Some st | Some _ => None end
     | OFlush, RFlushed => Some st
+    | OGet i _, RDoc d' => match get m i with
+                           | Some d => if Z.eqb (fst d') (fst d) && Z.eqb (snd d') (snd d) then Some st else None
+                           | None => None
+                           end
+    | OGet i _, RNotFound => match get m i with None => Some st | Some _ => None end
     | _, _ => None
     end
   end.
